@@ -327,8 +327,10 @@ pub mod harness {
         let (c, t, f, cw) = ct_rt_inputs();
         kani::assume(truth(&c) == Some(true) && c.mask_xz != 0);
         kani::assume(t.width as usize == cw && f.width as usize == cw);
-        let e = ct_eval(&c, &t, &f, cw);
-        assert!(same(&e, &val(&f)));                  // false whenever the branches differ: compile time takes the TRUE branch here
+        let node = ternary_node(&c, &t, &f, cw, t.signed && f.signed);
+        let r = run(&node);
+        assert!(same(&r, &val(&f)));                  // false whenever the branches differ: the TRUE branch is taken here
+        std::mem::forget(node);
     }
 
     // A condition wider than 64 bits (Value::BigUint; real num-bigint `!=` and `&` on both sides) is NOT under contract here: a harness with a
